@@ -190,7 +190,7 @@ def potable_case(model_name, nr):
 
   try:
     explore_and_check(res, fn, build, replay=replay, negative=lambda p: build(p, wrong=True),
-                      use_exp_axioms=False, explorer_kw=dict(max_paths=400), catch=(Exception,))
+                      use_exp_axioms=False, explorer_kw=dict(max_paths=400, query_timeout_ms=3000), max_seconds=150, catch=(Exception,))
   finally:
     shims.uninstall()
   res["nontrivial"] = res["vcs"]
